@@ -498,8 +498,8 @@ __CPROVER_ensures_td(track != NULL ==> (__CPROVER_was_freed(track) && __CPROVER_
 static struct track *track_create(int fd4, int fd6, const struct xcm_addr_ip *local_ip, uint16_t local_port, int64_t scope, double tcp_connect_timeout, \
                                   const struct tcp_opts *tcp_opts, const struct xcm_addr_ip *remote_ips, int num_remote_ips, uint16_t remote_port, \
                                   double initial_delay, struct timer_mgr *timer_mgr, struct xpoll *xpoll, void *log_ref)
-__CPROVER_requires(num_remote_ips >= 1 && num_remote_ips <= TRK_MAX_IPS && __CPROVER_r_ok(remote_ips, sizeof(struct xcm_addr_ip) * num_remote_ips) && \
-                   __CPROVER_r_ok(tcp_opts, sizeof(*tcp_opts)) && (local_ip == NULL || __CPROVER_r_ok(local_ip, sizeof(*local_ip))))
+__CPROVER_requires(num_remote_ips >= 1 && num_remote_ips <= TRK_MAX_IPS && __CPROVER_is_fresh(remote_ips, sizeof(struct xcm_addr_ip) * num_remote_ips) && \
+                   __CPROVER_is_fresh(tcp_opts, sizeof(*tcp_opts)) && (local_ip == NULL || __CPROVER_is_fresh(local_ip, sizeof(*local_ip))))
 __CPROVER_requires(IPS_FAMS_OK(remote_ips, num_remote_ips) && (local_ip == NULL || FAM_OK(local_ip->family)))
 __CPROVER_requires(TRK_FD_OK(fd4) && TRK_FD_OK(fd6) && (fd4 >= 0 || fd6 >= 0) && fd4 != fd6 && timer_mgr != NULL && xpoll != NULL && TRK_GHOST_OK_S(4) && \
                    xv_fk >= 0 && xv_fk < XV_NFD && xv_mc < sizeof(struct xcm_addr_ip) * TRK_MAX_IPS)
